@@ -19,6 +19,17 @@ CLAIMED = {
             "Trusted: TLC, the projection through a derived class (head/tail/prev/next), ASan/LSan as sensors. "
             "Not covered: key/value types other than int, histories longer than 400 calls.",
             "DESIGN.md 3.12"),
+    "C13": ("TLA+ multiset model (spec/KdTree): TLC model-checks the query laws; every recorded call of the real "
+            "KDTree in exhaustive small-scope and random histories is validated by TLC against the model",
+            "Exhaustive small scope on the real tree: every insertion sequence of up to 3 points of a 3x3 grid "
+            "(coordinate ties and duplicate points) followed by every erase order, sampled 4/5-point sequences, "
+            "with exists/at probed on all grid points and all 256 boxes queried; random histories up to 300 "
+            "operations on 2-D/3-D grids with iterate+erase_advance loops; each event is checked by TLC as a step "
+            "of the multiset specification; tree destroyed in every reached state under ASan/LSan.",
+            "Trusted: TLC, iteration of the real tree as the projection, ASan/LSan as sensors. at() is judged "
+            "relationally (any value stored at the point). Not covered: emplace (does not compile upstream), "
+            "coordinate types other than int64.",
+            "DESIGN.md 3.13"),
 }
 
 NOT_YET = "check not built yet in this round (planned: see DESIGN.md section 3)"
